@@ -55,13 +55,16 @@ func (c enumCase) expand() (declared []string, data []string) {
 			data = []string{declared[0]}
 		}
 		return declared, data
-	case strings.HasPrefix(c.Gen, "derived:"):
+	case strings.HasPrefix(c.Gen, "derived:"), strings.HasPrefix(c.Gen, "derived-empty-list:"):
 		var k int
-		fmt.Sscanf(c.Gen, "derived:%d", &k)
+		fmt.Sscanf(c.Gen[strings.Index(c.Gen, ":")+1:], "%d", &k)
 		for i := 0; i < k; i++ {
 			data = append(data, fmt.Sprintf("d%03d", (i*7)%k)) // k distinct values (7 is coprime to the sizes used)
 		}
 		data = append(data, nilMark, data[0], data[len(data)-1])
+		if strings.HasPrefix(c.Gen, "derived-empty-list:") {
+			return []string{}, data
+		}
 		return nil, data
 	}
 	return c.Declared, c.Data
@@ -128,6 +131,9 @@ func runEnumCase(c enumCase) *core.Failure {
 		return nil
 	}
 	q := constructEnum(c.Path, declared, data)
+	if len(declared) == 0 {
+		declared = nil // an empty value list means "derived from the data", exactly like no list
+	}
 	what := fmt.Sprintf("enum via %s, %d declared values %.60q, data %.80q", c.Path, len(declared), declared, data)
 	// expected construction outcome
 	mustFail := len(declared) > 255
@@ -456,6 +462,48 @@ func runEnumCase(c enumCase) *core.Failure {
 			}
 		}
 	}
+	// Equals against sibling columns (derived enums over other data): null is not a value, a value is not null, a value
+	// this column does not know is not any of its cells; an equal column with its values in another order is Equal
+	if len(data) <= 24 && c.Path != "new-agg" {
+		mk := func(vals []string) qframe.QFrame {
+			ptrs := make([]*string, len(vals))
+			for i := range vals {
+				if vals[i] != nilMark {
+					ptrs[i] = &vals[i]
+				}
+			}
+			return qframe.New(map[string]interface{}{"e": ptrs}, newqf.Enums(map[string][]string{"e": nil}))
+		}
+		qe := q.Select("e")
+		same := mk(append([]string{}, data...))
+		if same.Err == nil {
+			if a, why := qe.Equals(same); !a {
+				return core.Failf("%s: not Equal to a derived enum column holding the same cells (%s)", what, why)
+			}
+			if a, why := same.Equals(qe); !a {
+				return core.Failf("%s: a derived enum column holding the same cells is not Equal to it (%s)", what, why)
+			}
+		}
+		for r := range data {
+			for _, repl := range []string{nilMark, "~other~", data[(r+1)%len(data)]} {
+				if repl == data[r] {
+					continue
+				}
+				alt := append([]string{}, data...)
+				alt[r] = repl
+				o := mk(alt)
+				if o.Err != nil {
+					continue
+				}
+				if a, _ := qe.Equals(o); a {
+					return core.Failf("%s: Equal to a column that differs in row %d (%q there)", what, r, repl)
+				}
+				if a, _ := o.Equals(qe); a {
+					return core.Failf("%s: a column that differs in row %d (%q there) is Equal to it", what, r, repl)
+				}
+			}
+		}
+	}
 	// sort by the declared order
 	if len(declared) > 0 {
 		idc := model.Col{Name: "id", Kind: model.Int}
@@ -504,7 +552,8 @@ func c17Run(ctx *core.Ctx) {
 			lists = append(lists, l)
 		})
 	}
-	lists = append(lists, nil) // derived
+	lists = append(lists, nil)        // derived
+	lists = append(lists, []string{}) // an empty list: derived as well
 	cellAlpha := []string{"a", "b", "c", nilMark, "zz"}
 	for _, decl := range lists {
 		for n := 1; n <= 3; n++ {
@@ -517,7 +566,7 @@ func c17Run(ctx *core.Ctx) {
 					if ctx.Mine() {
 						out := "small/accepted"
 						for _, d := range data {
-							if d != nilMark && decl != nil && !containsStr(decl, d) {
+							if d != nilMark && len(decl) > 0 && !containsStr(decl, d) {
 								out = "small/rejected"
 							}
 						}
@@ -552,6 +601,7 @@ func c17Run(ctx *core.Ctx) {
 		for _, p := range paths {
 			if ctx.Mine() {
 				exec(enumCase{Gen: fmt.Sprintf("derived:%d", k), Path: p}, fmt.Sprintf("derived/%d", k))
+				exec(enumCase{Gen: fmt.Sprintf("derived-empty-list:%d", k), Path: p}, fmt.Sprintf("derived-empty-list/%d", k))
 			}
 		}
 	}
